@@ -115,6 +115,23 @@ def check(ctx):
     pc = [c for c in calls(svl, "_SetPartitionsPreSetIndex")]
     ok = len(pc) == 1 and kwarg(pc[0], "ascending") is not None and eqv(kwarg(pc[0], "ascending"), "self._divisions_ascending") and kwarg(pc[0], "na_position") is not None and eqv(kwarg(pc[0], "na_position"), "self.na_position")
     ctx.ob("ARG.sort.partition-na-position", svl, "_SetPartitionsPreSetIndex(..., ascending=self._divisions_ascending, na_position=self.na_position)", ok, "" if ok else "missing values are routed to the last partition whatever na_position says: with na_position='first' they end up in the middle of the result")
+    # ---------------- round 4b (C40-m7): both directions of set_partitions_pre bisect on the same side
+    from ..lib import kwarg as _k4, eqv as _e4
+    spp4 = ctx.model.module("dask/dataframe/shuffle.py").func("set_partitions_pre")
+    ss4 = [c for c in ast.walk(spp4) if isinstance(c, ast.Call) and isinstance(c.func, ast.Attribute) and c.func.attr == "searchsorted" and _e4(c.func.value, "divisions") and c.args and _e4(c.args[0], "s")]
+    ctx.count("set_partitions_pre_bisects", len(ss4))
+    ctx.floor("set_partitions_pre_bisects", 2)
+    for c4 in ss4:
+        sd4 = _k4(c4, "side")
+        ok = sd4 is not None and _e4(sd4, "'right'")
+        ctx.ob("SIB.set-partitions.side", c4, "divisions.searchsorted(s, side='right') in both the ascending and the descending branch", ok, "" if ok else "with the default side='left' the rows equal to a division boundary land one partition off (descending: the global minimum is clamped into partition 0): the output is not globally sorted")
+    # ---------------- round 4b (C40-m8): Repartition keeps the 'already shuffled on' claim only when partitions are merged
+    rp4 = ctx.model.klass("dask/dataframe/dask_expr/_repartition.py", "Repartition").own_methods["unique_partition_mapping_columns_from_shuffle"]
+    ifs4 = [n for n in ast.walk(rp4) if isinstance(n, ast.If) and any(isinstance(s_, ast.Return) and _e4(s_.value, "self.frame.unique_partition_mapping_columns_from_shuffle") for s_ in n.body)]
+    ok = len(ifs4) == 1 and isinstance(ifs4[0].test, ast.BoolOp) and isinstance(ifs4[0].test.op, ast.And) and any(_e4(v, "self.npartitions <= self.frame.npartitions") or _e4(v, "self.frame.npartitions >= self.npartitions") for v in ifs4[0].test.values)
+    other4 = [r for r in ast.walk(rp4) if isinstance(r, ast.Return) and not (ifs4 and r in ifs4[0].body)]
+    ok = ok and all(_e4(r.value, "set()") for r in other4)
+    ctx.ob("DOM.repartition.mapping-claim", ifs4[0] if ifs4 else rp4, "Repartition passes on its input's unique_partition_mapping_columns_from_shuffle only under `self.npartitions <= self.frame.npartitions`", ok, "" if ok else "splitting partitions separates equal keys: drop_duplicates/unique/nunique trust the claim, skip the shuffle and deduplicate per partition only")
 
 
 VARIANTS = [
